@@ -17,12 +17,15 @@ verus! {
 //@path std::fs::read_dir => fs_read_dir
 //@path std::fs::remove_dir_all => fs_remove_dir_all
 //@path KeyspaceCreateOptions::from_kvs => CreateOptions::from_kvs
-//@world is_deleted.store meta_keyspace.resolve_id fs_remove_dir_all keyspaces_lock.insert CreateOptions::from_kvs
+//@path KeyspaceCreateOptions => CreateOptions
+//@world is_deleted.store meta_keyspace.resolve_id fs_remove_dir_all keyspaces_lock.insert CreateOptions::from_kvs keyspaces.get keyspace_id_counter.next keyspace_id_counter.set meta_keyspace.create_keyspace
 
 pub mod atomic_shim { pub use std::sync::atomic::Ordering; }
 // ---- ghost world of this unit: deleted flags and the meta dictionary
 pub struct World { pub deleted: Map<int, bool>, pub names: Set<Seq<u8>>, pub meta_removed: Seq<Seq<u8>>,
-    pub removed_dirs: Seq<int>, pub meta_names: Map<u64, Seq<u8>>, pub registered: Map<Seq<u8>, RegG>, pub opts_in_meta: Map<u64, CreateOptions> }
+    pub removed_dirs: Seq<int>, pub meta_names: Map<u64, Seq<u8>>, pub registered: Map<Seq<u8>, RegG>, pub opts_in_meta: Map<u64, CreateOptions>,
+    pub next_ks_id: u64,              // Database.keyspace_id_counter: next internal keyspace id to hand out
+    pub journal_ids: Set<u64> }       // keyspace ids that occur in a record of a journal file that still exists
 pub struct AtomicBool { pub id: Ghost<int> }
 impl AtomicBool {
     #[verifier::external_body]
@@ -38,7 +41,7 @@ impl PoisonSignal { #[verifier::external_body] pub fn default() -> (r: PoisonSig
 impl Clone for PoisonSignal { #[verifier::external_body] fn clone(&self) -> (r: PoisonSignal) ensures r.id == self.id { unimplemented!() } }
 pub struct LockedFileGuard { pub id: Ghost<int> }        // Arc<LockedFileGuardInner>: the flock on <db>/lock lives as long as any clone
 impl Clone for LockedFileGuard { #[verifier::external_body] fn clone(&self) -> (r: LockedFileGuard) ensures r.id == self.id { unimplemented!() } }
-pub struct Supervisor { pub id: Ghost<int>, pub seqno: SequenceNumberCounter, pub snapshot_tracker: SnapshotTracker }
+pub struct Supervisor { pub id: Ghost<int>, pub seqno: SequenceNumberCounter, pub snapshot_tracker: SnapshotTracker, pub keyspaces: KsLock }
 impl Clone for Supervisor { #[verifier::external_body] fn clone(&self) -> (r: Supervisor) ensures r == *self { unimplemented!() } }
 pub struct SequenceNumberCounter { pub id: Ghost<int> }
 impl Clone for SequenceNumberCounter { #[verifier::external_body] fn clone(&self) -> (r: SequenceNumberCounter) ensures r.id == self.id { unimplemented!() } }
@@ -63,7 +66,7 @@ pub struct DescriptorTable { pub id: Ghost<int> }
 impl Clone for DescriptorTable { #[verifier::external_body] fn clone(&self) -> (r: DescriptorTable) ensures r.id == self.id { unimplemented!() } }
 pub struct Cache { pub id: Ghost<int> }
 impl Clone for Cache { #[verifier::external_body] fn clone(&self) -> (r: Cache) ensures r.id == self.id { unimplemented!() } }
-pub struct Database { pub supervisor: Supervisor, pub worker_pool: WorkerPool, pub is_poisoned: PoisonSignal, pub lock_file: LockedFileGuard, pub stats: Arc<Stats>, pub config: DbConfig, pub meta_keyspace: MetaKeyspace }
+pub struct Database { pub supervisor: Supervisor, pub worker_pool: WorkerPool, pub is_poisoned: PoisonSignal, pub lock_file: LockedFileGuard, pub stats: Arc<Stats>, pub config: DbConfig, pub meta_keyspace: MetaKeyspace, pub keyspace_id_counter: IdCounter }
 
 // ---- option values: opaque policies with ghost identity (their codecs are U-POLICY / K-POLICY)
 pub struct Policy { pub v: Ghost<int> }
@@ -148,16 +151,25 @@ impl ParseResult { #[verifier::external_body] pub fn expect(self, m: &str) -> (r
 impl PathBuf {
     #[verifier::external_body] pub fn try_exists(&self) -> (r: Result<bool, IoError>) { unimplemented!() }
 }
-#[verifier::external_body] pub fn fs_read_dir(p: &PathBuf) -> (r: Result<Vec<Result<DirEntry, IoError>>, IoError>) { unimplemented!() }
-/// what a handle registered by recovery must look like (C16, C18, C06, C13, C17)
-pub open spec fn reg_ok(r: RegG, name: Seq<u8>, db: &Database, w0: World) -> bool {
-    &&& w0.meta_names.dom().contains(r.id) && w0.meta_names[r.id] == name          // registered under the name the meta keyspace gives its id
-    &&& w0.opts_in_meta.dom().contains(r.id)
-    &&& r.factory == (match db.config.compaction_filter_factory_assigner { Some(a) => (a.f@)(name), None => None })   // exactly the assigner's verdict for THIS name
-    &&& cfg_matches(r.cfg, CreateOptions { compaction_filter_factory: None, ..w0.opts_in_meta[r.id] }) || cfg_matches_but_factory(r.cfg, w0.opts_in_meta[r.id], r.factory)
-    &&& r.cfg.seqno == db.supervisor.seqno.id@ && r.cfg.visible == db.supervisor.snapshot_tracker.visible.id@
-    &&& r.poison == db.is_poisoned.id@ && r.lock == db.lock_file.id@
+/// what a directory listing yields (one read of the directory; recovery is single-threaded and holds the directory lock)
+pub uninterp spec fn dir_entries(path: int) -> Seq<Result<DirEntry, IoError>>;
+#[verifier::external_body] pub fn fs_read_dir(p: &PathBuf) -> (r: Result<Vec<Result<DirEntry, IoError>>, IoError>) ensures r is Ok ==> r->Ok_0@ == dir_entries(p.id@) { unimplemented!() }
+/// what a handle registered by recovery must look like, one predicate per property
+pub open spec fn reg_named(r: RegG, name: Seq<u8>, w0: World) -> bool {   // registered under the name the meta keyspace gives its id
+    w0.meta_names.dom().contains(r.id) && w0.meta_names[r.id] == name && w0.opts_in_meta.dom().contains(r.id)
 }
+pub open spec fn reg_factory(r: RegG, name: Seq<u8>, db: &Database) -> bool {   // exactly the assigner's verdict for THIS name
+    r.factory == (match db.config.compaction_filter_factory_assigner { Some(a) => (a.f@)(name), None => None })
+}
+pub open spec fn reg_cfg(r: RegG, w0: World) -> bool {   // the tree runs with the options stored in the meta keyspace (+ the installed factory)
+    w0.opts_in_meta.dom().contains(r.id) && (cfg_matches(r.cfg, CreateOptions { compaction_filter_factory: None, ..w0.opts_in_meta[r.id] }) || cfg_matches_but_factory(r.cfg, w0.opts_in_meta[r.id], r.factory))
+}
+pub open spec fn reg_counters(r: RegG, db: &Database) -> bool {
+    r.cfg.seqno == db.supervisor.seqno.id@ && r.cfg.visible == db.supervisor.snapshot_tracker.visible.id@
+}
+pub open spec fn reg_poison(r: RegG, db: &Database) -> bool { r.poison == db.is_poisoned.id@ }
+pub open spec fn reg_lock(r: RegG, db: &Database) -> bool { r.lock == db.lock_file.id@ }
+pub open spec fn is_new(n: Seq<u8>, w: World, w0: World) -> bool { w.registered.dom().contains(n) && !w0.registered.dom().contains(n) }
 pub open spec fn cfg_matches_but_factory(g: LsmConfigG, o: CreateOptions, f: Option<int>) -> bool {
     g.data_block_size == o.data_block_size_policy.v@ && g.data_block_compression == o.data_block_compression_policy.v@
     && g.index_block_compression == o.index_block_compression_policy.v@ && g.restart_interval == o.data_block_restart_interval_policy.v@
@@ -201,6 +213,68 @@ impl KsWriteGuard {
 }
 impl Clone for Keyspace { #[verifier::external_body] fn clone(&self) -> (r: Keyspace) ensures r == *self { unimplemented!() } }
 
+// ---- Database::keyspace (src/db.rs): dictionary lookup, id allocation, meta rows
+pub uninterp spec fn str_bytes(s: &str) -> Seq<u8>;
+pub uninterp spec fn valid_name(s: Seq<u8>) -> bool;
+#[verifier::external_body] pub fn is_valid_keyspace_name(name: &str) -> (r: bool) ensures r == valid_name(str_bytes(name)) { unimplemented!() }
+impl vstd::std_specs::convert::FromSpecImpl<&str> for KeyspaceKey {
+    open spec fn obeys_from_spec() -> bool { true }
+    open spec fn from_spec(s: &str) -> KeyspaceKey { KeyspaceKey { s: Ghost(str_bytes(s)) } }
+}
+impl From<&str> for KeyspaceKey { #[verifier::external_body] fn from(s: &str) -> (r: KeyspaceKey) { unimplemented!() } }
+pub open spec fn reg_of(k: Keyspace) -> RegG {
+    RegG { id: k.0.t.id, cfg: k.0.t.tree.cfg@, factory: facv(k.0.t.config.compaction_filter_factory), poison: k.0.t.is_poisoned.id@, lock: k.0.t.lock_file.id@ }
+}
+pub struct KsLock { pub dummy: u8 }
+pub struct KsLockWriteResult { pub dummy: u8 }
+impl KsLock { #[verifier::external_body] pub fn write(&self) -> (r: KsLockWriteResult) { unimplemented!() } }
+// a poisoned RwLock panics here in the real code (another thread panicked while holding it): not modelled
+impl KsLockWriteResult { #[verifier::external_body] pub fn expect(self, m: &str) -> (r: KsWriteGuard) { unimplemented!() } }
+impl KsWriteGuard {
+    // HashMap<KeyspaceKey, Keyspace>::get through the write guard: the dictionary of registered handles
+    #[verifier::external_body]
+    pub fn get(&self, name: &str, Tracked(w): Tracked<&mut World>) -> (r: Option<&Keyspace>)
+        ensures *final(w) == *old(w),
+            r matches Some(k) ==> old(w).registered.dom().contains(str_bytes(name)) && reg_of(*k) == old(w).registered[str_bytes(name)],
+            r is None ==> !old(w).registered.dom().contains(str_bytes(name)),
+    { unimplemented!() }
+}
+/// P-ID (C12): every id that names a keyspace in the meta keyspace, and every id that still occurs in a journal record,
+/// is below the id counter (established by recovery: recover_keyspaces + journal replay; kept by Database::keyspace)
+pub open spec fn ids_below_counter(w: World) -> bool {
+    (forall|i: u64| #[trigger] w.meta_names.dom().contains(i) ==> i < w.next_ks_id) && (forall|i: u64| #[trigger] w.journal_ids.contains(i) ==> i < w.next_ks_id)
+}
+pub struct IdCounter { pub dummy: u8 }
+impl IdCounter {
+    // SequenceNumberCounter::next = fetch_add(1): returns the current value
+    #[verifier::external_body]
+    pub fn next(&self, Tracked(w): Tracked<&mut World>) -> (r: u64)
+        requires old(w).next_ks_id < u64::MAX,     // ASSUMED: fewer than 2^64 keyspaces are ever created
+        ensures r == old(w).next_ks_id, *final(w) == (World { next_ks_id: (r + 1) as u64, ..*old(w) }),
+    { unimplemented!() }
+    #[verifier::external_body]
+    pub fn set(&self, v: u64, Tracked(w): Tracked<&mut World>)
+        ensures *final(w) == (World { next_ks_id: v, ..*old(w) }),
+    { unimplemented!() }
+}
+impl MetaKeyspace {
+    // ASSUMED contract of MetaKeyspace::create_keyspace (src/meta_keyspace.rs, not under contract: lsm-tree ingestion of the
+    // name row and the option rows produced by CreateOptions::encode_kvs, then the dictionary insert, under the write guard).
+    // P-ID (C12): the id must not name any keyspace and must not occur in any surviving journal record
+    #[verifier::external_body]
+    pub fn create_keyspace(&self, id: InternalKeyspaceId, name: &KeyspaceKey, handle: Keyspace, guard: KsWriteGuard, Tracked(w): Tracked<&mut World>) -> (r: Result<(), Error>)
+        requires !old(w).meta_names.dom().contains(id) && !old(w).journal_ids.contains(id), // [C12:P-ID-new-keyspace-gets-a-never-used-id]
+            handle.0.t.id == id, handle.0.t.name.s@ == name.s@,
+        ensures r is Ok ==> *final(w) == (World { registered: old(w).registered.insert(name.s@, reg_of(handle)), names: old(w).names.insert(name.s@),
+                    meta_names: old(w).meta_names.insert(id, name.s@), opts_in_meta: old(w).opts_in_meta.insert(id, handle.0.t.config), ..*old(w) }),
+                r is Err ==> *final(w) == *old(w),
+    { unimplemented!() }
+}
+/// what the assigner says for a name (None when there is no assigner)
+pub open spec fn assigned(db: &Database, name: Seq<u8>) -> Option<int> {
+    match db.config.compaction_filter_factory_assigner { Some(a) => (a.f@)(name), None => None }
+}
+
 //@extract-type src/keyspace/mod.rs :: KeyspaceInner
 //@extract-type src/keyspace/mod.rs :: Keyspace
 impl std::ops::Deref for Keyspace { type Target = KeyspaceInner; fn deref(&self) -> (r: &KeyspaceInner) ensures *r == self.0.t { &self.0.t } }
@@ -227,13 +301,12 @@ impl std::ops::Deref for Keyspace { type Target = KeyspaceInner; fn deref(&self)
 
 //@extract src/keyspace/mod.rs :: Keyspace :: create_new props=C13+C17+C16+C18+C06
 //@contract
-    ensures r is Ok ==> ({ let k = r->Ok_0.0.t;
-        &&& k.is_poisoned.id == db.is_poisoned.id // [C13:keyspace-shares-the-database-poison-flag]
-        &&& k.lock_file.id == db.lock_file.id // [C17:keyspace-holds-the-directory-lock]
-        &&& k.supervisor == db.supervisor && k.id == keyspace_id && k.config == config && k.name == name
-        &&& cfg_matches(k.tree.cfg@, config) // [C16:options-forwarded-to-tree] [C18:filter-factory-forwarded-to-tree]
-        &&& k.tree.cfg@.seqno == db.supervisor.seqno.id@ && k.tree.cfg@.visible == db.supervisor.snapshot_tracker.visible.id@ // [C06:trees-share-the-database-counters]
-    }),
+    ensures
+        r is Ok ==> r->Ok_0.0.t.is_poisoned.id == db.is_poisoned.id, // [C13:keyspace-shares-the-database-poison-flag]
+        r is Ok ==> r->Ok_0.0.t.lock_file.id == db.lock_file.id, // [C17:keyspace-holds-the-directory-lock]
+        r is Ok ==> r->Ok_0.0.t.supervisor == db.supervisor && r->Ok_0.0.t.id == keyspace_id && r->Ok_0.0.t.config == config && r->Ok_0.0.t.name == name,
+        r is Ok ==> cfg_matches(r->Ok_0.0.t.tree.cfg@, config), // [C16:options-forwarded-to-tree] [C18:filter-factory-forwarded-to-tree]
+        r is Ok ==> r->Ok_0.0.t.tree.cfg@.seqno == db.supervisor.seqno.id@ && r->Ok_0.0.t.tree.cfg@.visible == db.supervisor.snapshot_tracker.visible.id@, // [C06:trees-share-the-database-counters]
 //@end
 
 //@extract src/db.rs :: Database :: delete_keyspace world props=C12
@@ -244,22 +317,51 @@ impl std::ops::Deref for Keyspace { type Target = KeyspaceInner; fn deref(&self)
         r is Err ==> *final(w) == *old(w), // [C12:failed-delete-changes-nothing]
 //@end
 
+//@extract src/db.rs :: Database :: keyspace world optmap props=C12+C16+C18+C13+C17
+//@contract
+    requires valid_name(str_bytes(name)), create_options.requires(()), ids_below_counter(*old(w)), old(w).next_ks_id < u64::MAX,
+        // the public API cannot put a compaction filter factory into KeyspaceCreateOptions (the field and its setter are pub(crate))
+        forall|o: CreateOptions| create_options.ensures((), o) ==> o.compaction_filter_factory is None,
+    ensures
+        ids_below_counter(*final(w)), // [C12:P-ID-kept-by-keyspace-creation]
+        // an existing name: the registered handle is returned, the caller's options are ignored, nothing changes (C16, C12)
+        old(w).registered.dom().contains(str_bytes(name)) ==> r is Ok && reg_of(r->Ok_0) == old(w).registered[str_bytes(name)] && *final(w) == *old(w), // [C16:existing-name-returns-the-registered-handle-options-ignored] [C12:existing-name-returns-existing-keyspace]
+        // a new name: fresh id, shared flag and lock, tree configured with the handle's own options, assigner's verdict installed
+        !old(w).registered.dom().contains(str_bytes(name)) && r is Ok ==> r->Ok_0.0.t.id == old(w).next_ks_id, // [C12:P-ID-new-keyspace-gets-the-counter-value]
+        !old(w).registered.dom().contains(str_bytes(name)) && r is Ok ==> final(w).registered.dom().contains(str_bytes(name)) && final(w).registered[str_bytes(name)] == reg_of(r->Ok_0), // [C12:new-keyspace-registered-under-its-name]
+        !old(w).registered.dom().contains(str_bytes(name)) && r is Ok ==> facv(r->Ok_0.0.t.config.compaction_filter_factory) == assigned(self, str_bytes(name)), // [C18:assigned-filter-installed-on-create-and-only-then]
+        !old(w).registered.dom().contains(str_bytes(name)) && r is Ok ==> cfg_matches(r->Ok_0.0.t.tree.cfg@, r->Ok_0.0.t.config), // [C16:options-forwarded-to-tree] [C18:filter-factory-forwarded-to-tree]
+        !old(w).registered.dom().contains(str_bytes(name)) && r is Ok ==> r->Ok_0.0.t.is_poisoned.id == self.is_poisoned.id, // [C13:keyspace-shares-the-database-poison-flag]
+        !old(w).registered.dom().contains(str_bytes(name)) && r is Ok ==> r->Ok_0.0.t.lock_file.id == self.lock_file.id, // [C17:keyspace-holds-the-directory-lock]
+        !old(w).registered.dom().contains(str_bytes(name)) && r is Err ==> final(w).registered == old(w).registered && final(w).meta_names == old(w).meta_names, // [C12:failed-create-registers-nothing]
+//@end
+
 //@extract src/recovery.rs :: recover_keyspaces as=recover_keyspaces_scan world desugar_for=0 optmap props=C12+C06+C16+C18+C13+C17+C01+C11
 //@anchor for dirent in
-//@sig fn recover_keyspaces_scan(db: &Database, meta_keyspace: &MetaKeyspace, keyspaces_folder: PathBuf, keyspaces_lock: &mut KsWriteGuard, mut highest_id: u64) -> FjResult<u64>
-//@yield Ok(highest_id)
+//@sig fn recover_keyspaces_scan(db: &Database, meta_keyspace: &MetaKeyspace, keyspaces_folder: PathBuf, keyspaces_lock: &mut KsWriteGuard, mut highest_id: u64) -> FjResult<()>
+//@to-block-end
 //@contract
-    requires highest_id >= 1,
-    ensures true,
+    requires 1 <= highest_id < u64::MAX,
+        // ASSUMED: no directory of the keyspaces folder is named 2^64-1 (names are ids drawn from the counter)
+        forall|j: int| 0 <= j < dir_entries(keyspaces_folder.id@).len() && (#[trigger] dir_entries(keyspaces_folder.id@)[j]) is Ok ==> dir_entries(keyspaces_folder.id@)[j]->Ok_0.id@ < u64::MAX,
+    ensures
+        // P-ID (C12): after recover_keyspaces the id counter is above every directory id found (referenced or not) ...
+        r is Ok ==> forall|j: int| 0 <= j < dir_entries(keyspaces_folder.id@).len() ==> ((#[trigger] dir_entries(keyspaces_folder.id@)[j]) is Ok && !dir_entries(keyspaces_folder.id@)[j]->Ok_0.is_file@ ==> final(w).next_ks_id > dir_entries(keyspaces_folder.id@)[j]->Ok_0.id@), // [C12:P-ID-counter-above-every-directory-id]
 //@loop 0
             invariant
-                highest_id >= 1,
+                1 <= highest_id < u64::MAX, ents == dir_entries(keyspaces_folder.id@),
+                forall|j: int| 0 <= j < ents.len() && (#[trigger] ents[j]) is Ok ==> ents[j]->Ok_0.id@ < u64::MAX,
                 // P-ID (C12): the id counter is seeded above EVERY directory id seen so far, referenced or not
                 forall|j: int| 0 <= j < __fjx_n0 ==> (ents[j] is Ok && !ents[j]->Ok_0.is_file@ ==> highest_id >= ents[j]->Ok_0.id@), // [C12:P-ID-counter-above-every-directory-id]
                 ents.len() == total, 0 <= __fjx_n0 <= total, __fjx_it0.remaining().len() == total - __fjx_n0,
                 forall|j: int| 0 <= j < __fjx_it0.remaining().len() ==> (#[trigger] __fjx_it0.remaining()[j]) == ents[__fjx_n0 + j],
                 // every keyspace registered so far: recovered options, counters of this database, shared flag and lock, assigner's factory
-                forall|n: Seq<u8>| #![trigger w.registered[n]] w.registered.dom().contains(n) && !old(w).registered.dom().contains(n) ==> reg_ok(w.registered[n], n, db, *old(w)), // [C16:recovered-options-in-force] [C18:assigned-filter-installed-on-recovery] [C06:trees-share-the-database-counters] [C11:recovered-trees-advance-the-visible-seqno] [C01:recovered-trees-advance-the-visible-seqno] [C13:keyspace-shares-the-database-poison-flag] [C17:keyspace-holds-the-directory-lock]
+                forall|n: Seq<u8>| #![trigger w.registered[n]] is_new(n, *w, *old(w)) ==> reg_named(w.registered[n], n, *old(w)), // [C12:recovered-handle-registered-under-its-meta-name]
+                forall|n: Seq<u8>| #![trigger w.registered[n]] is_new(n, *w, *old(w)) ==> reg_factory(w.registered[n], n, db), // [C18:assigned-filter-installed-on-recovery]
+                forall|n: Seq<u8>| #![trigger w.registered[n]] is_new(n, *w, *old(w)) ==> reg_cfg(w.registered[n], *old(w)), // [C16:recovered-options-in-force]
+                forall|n: Seq<u8>| #![trigger w.registered[n]] is_new(n, *w, *old(w)) ==> reg_counters(w.registered[n], db), // [C06:trees-share-the-database-counters] [C11:recovered-trees-advance-the-visible-seqno] [C01:recovered-trees-advance-the-visible-seqno]
+                forall|n: Seq<u8>| #![trigger w.registered[n]] is_new(n, *w, *old(w)) ==> reg_poison(w.registered[n], db), // [C13:keyspace-shares-the-database-poison-flag]
+                forall|n: Seq<u8>| #![trigger w.registered[n]] is_new(n, *w, *old(w)) ==> reg_lock(w.registered[n], db), // [C17:keyspace-holds-the-directory-lock]
                 w.meta_names == old(w).meta_names && w.opts_in_meta == old(w).opts_in_meta,
                 forall|n: Seq<u8>| old(w).registered.dom().contains(n) ==> w.registered.dom().contains(n),
             ensures __fjx_n0 == total,
